@@ -117,3 +117,16 @@ Theorem retired_event_without_issued_refuted :
   exists s q, reach false 8 s false /\ closed s = None /\ In q (retiredev s) /\ ~ In q (issued s).
 Proof. exact retired_event_without_issued_l. Qed.
 Print Assumptions retired_event_without_issued_refuted.
+
+(* F1 needs a misbehaving peer: [reachH c l s x H] (proofs/CidP.v) is [reach] restricted to peers that never send two
+   NEW_CONNECTION_ID frames with the same sequence number and different retire_prior_to (retransmissions are
+   verbatim copies, RFC 9000 19.15).  For such peers no operation ever raises, hence dcid_not_retired holds
+   unconditionally. *)
+Theorem verbatim_peer_never_raises : forall c l s x H, reachH c l s x H -> x = false.
+Proof. exact verbatim_reach_no_exn. Qed.
+Print Assumptions verbatim_peer_never_raises.
+
+Theorem dcid_not_retired_verbatim_peer : forall c l s x H, reachH c l s x H ->
+  rpt s <= cur s /\ Forall (fun q => rpt s <= q) (avail s) /\ rpt s <= fst (fst (fst (send s))).
+Proof. exact dcid_not_retired_verbatim. Qed.
+Print Assumptions dcid_not_retired_verbatim_peer.
